@@ -610,6 +610,7 @@ def make_scheduler(case, space):
     so = dict(debug_log=False)
     if "bayesopt" in kind or "hypertune" in kind:
         so = dict(FAST_GP, num_init_random=case["num_init_random"])
+        so.update(case.get("search_options") or {})
     if kind == "hb-promotion-hypertune":
         so["model"] = "gp_independent"
     common = dict(metric="m", mode="min", random_seed=seed, points_to_evaluate=pts)
